@@ -346,6 +346,35 @@ func (x *Exec) external(fn *ssa.Function, args []Val) (Val, bool) {
 		}
 		return nil, false
 	}
+	switch name {
+	case "internal/reflectlite.ValueOf":
+		return x.rvOf(args[0].(Iface)), true
+	case "(internal/reflectlite.Value).Len":
+		return x.reflectExt("(reflect.Value).Len", args), true
+	case "internal/reflectlite.Swapper", "reflect.Swapper":
+		// func(i, j int) swapping two elements of the slice in place
+		sv := x.resolve(args[0].(Iface))
+		sl, ok := sv.V.(Slice)
+		if !ok {
+			x.fail("reflect-panic", "")
+		}
+		return Fn{Native: func(a []Val) Val {
+			i := x.checkIndex(a[0].(Int), sl.Len)
+			j := x.checkIndex(a[1].(Int), sl.Len)
+			if !i.conc() || !j.conc() {
+				panic(unsupported{"swap with symbolic indexes"})
+			}
+			if sl.Arr == nil {
+				return nil
+			}
+			pi := Ptr{Base: sl.Arr, Path: []Step{{Idx: &Int{W: 64, S: true, C: i.C + uint64(sl.Off)}}}}
+			pj := Ptr{Base: sl.Arr, Path: []Step{{Idx: &Int{W: 64, S: true, C: j.C + uint64(sl.Off)}}}}
+			vi, vj := x.load(pi), x.load(pj)
+			x.store(pi, vj)
+			x.store(pj, vi)
+			return nil
+		}}, true
+	}
 	if strings.HasPrefix(name, "sync/atomic.") {
 		// atomic operations are synchronised: plain load/store, never a frame write
 		op := strings.TrimPrefix(name, "sync/atomic.")
